@@ -1,10 +1,12 @@
-// ad-hoc probe (not used by any check)
-use qrlew::{relation::Relation, sql::{parse, relation::QueryWithRelations}};
+// ad-hoc probe (not used by any check): world3 query + DP rewrite, to see backtraces
+use qrlew::{relation::{Relation, Variant as _}, sql::{parse, relation::QueryWithRelations}, differential_privacy::DpParameters};
 fn main() {
-    let rels = qvh::s_sqlx::world2();
-    for sql in std::env::args().skip(1) {
-        let q = parse(&sql).unwrap();
-        let r = Relation::try_from(QueryWithRelations::new(&q, &rels)).unwrap();
-        println!("{}\n{}", r, qvh::exec::render(&r));
-    }
+    let rels = qvh::s_total::world3();
+    let a: Vec<String> = std::env::args().collect();
+    let sql = &a[1]; let eps: f64 = a.get(2).map(|x| x.parse().unwrap()).unwrap_or(1.0); let delta: f64 = a.get(3).map(|x| x.parse().unwrap()).unwrap_or(1e-5);
+    let q = parse(sql).unwrap();
+    let r = Relation::try_from(QueryWithRelations::new(&q, &rels)).unwrap();
+    println!("compiled: {}", r.schema());
+    let dp = r.rewrite_with_differential_privacy(&rels, None, qvh::s_total::privacy_unit3(), DpParameters::from_epsilon_delta(eps, delta));
+    println!("{:?}", dp.map(|d| d.relation().schema().to_string()));
 }
